@@ -154,11 +154,12 @@ pub struct Expect<'a> {
     pub model: &'a Model,
     pub headers: HashMap<usize, Vec<Vec<u8>>>,
     pub rows: HashMap<String, Vec<u8>>,
+    pub files: HashMap<String, (Vec<u8>, usize, usize)>,
 }
 
 impl<'a> Expect<'a> {
     pub fn new(model: &'a Model) -> Self {
-        Expect { model, headers: HashMap::new(), rows: HashMap::new() }
+        Expect { model, headers: HashMap::new(), rows: HashMap::new(), files: HashMap::new() }
     }
     pub fn header_kmers(&mut self, k: usize) -> Vec<Vec<u8>> {
         if let Some(h) = self.headers.get(&k) {
@@ -189,25 +190,29 @@ impl<'a> Expect<'a> {
         }
         reqs.iter().map(|r| self.rows[r].clone()).collect()
     }
+    /// the whole expected file from ONE model request: the specification's file (`oligoFileSpecG`, the right-hand side
+    /// of the end-to-end theorems) decides; the code-shaped model's file must coincide with it
     pub fn file(&mut self, c: &OFCase) -> (Vec<u8>, usize, usize) {
-        let mut out = Vec::new();
-        if c.header {
-            let h = self.header_kmers(c.k);
-            for (i, km) in h.iter().enumerate() {
-                if i > 0 {
-                    out.extend(&c.delim);
-                }
-                out.extend(km);
-            }
-            out.push(b'\n');
+        let recs = if c.recs.is_empty() { "-".to_string() } else { c.recs.iter().map(|r| hexr(r)).collect::<Vec<_>>().join(",") };
+        let req = format!("oligofile {} {} {} {} {}", c.k, if c.norm { 1 } else { 0 }, if c.header { 1 } else { 0 }, hex(&c.delim), recs);
+        if let Some(hit) = self.files.get(&req) {
+            return hit.clone();
         }
-        let hdr_len = out.len();
-        let rows = self.rows_for(c.k, c.norm, &c.delim, &c.recs);
-        let row_len = rows.first().map(|r| r.len()).unwrap_or(0);
-        for r in rows {
-            out.extend(r);
+        let ans = self.model.query(&[req.clone()]);
+        let f: Vec<&str> = ans[0].split('|').collect();
+        if f.len() < 5 || f[0] != "ok" {
+            return (b"<model-error>".to_vec(), 0, 0);
         }
-        (out, hdr_len, row_len)
+        let spec = unhex(f[2]);
+        if f[1] != f[2] {
+            // model and spec disagree: impossible while `oligo_batch_end_to_end` checks; make it visible
+            return (b"<model-differs-from-spec>".to_vec(), 0, 0);
+        }
+        let out = (spec, f[3].parse().unwrap_or(0), f[4].parse().unwrap_or(0));
+        if self.files.len() < 64 {
+            self.files.insert(req, out.clone());
+        }
+        out
     }
 }
 
